@@ -13,7 +13,7 @@ Extraction "model.ml"
   page_load page_set_bytes page_modify page_bytes page_free page_flush fresh_page existing_page
   run_batches spec_disk sort_batch
   wq_init wq_schedule wq_sync wq_next
-  check_truncate
+  check_truncate rollback_truncate
   tx_result tx_next page_result page_next writer_result reader_result ack_result
   open_step close_step
   tx_begin tx_run tx_commit f_wal ack_pages ack_skips
